@@ -48,7 +48,8 @@ def uses_auto_attribs(call: ast.AST, module: model.Module) -> bool:
 
     try:
         value = ast.literal_eval(auto_attribs_expr)
-    except ValueError:
+    except (ValueError, TypeError):
+        # (TypeError: a display with an unhashable key or member, like {[]: 1})
         module.report(
             'Unable to figure out value for "auto_attribs" argument '
             'to attr.s(), maybe too complex',
